@@ -5,7 +5,7 @@ import statsmodels.api as sm
 import torch
 
 from leaspy.io.outputs import IndividualParameters
-from leaspy.utils.typing import DictParamsTorch
+from leaspy.utils.typing import DictParamsTorch, KwargsType
 
 from .stateless import StatelessModel
 
@@ -89,6 +89,13 @@ class LMEModel(StatelessModel):
     def hyperparameters(self) -> DictParamsTorch:
         """Dictionary of values for model hyperparameters."""
         return {}
+
+    def to_dict(self, **kwargs) -> KwargsType:
+        """Export model as a dictionary ready for export (with the `with_random_slope_age` hyperparameter)."""
+        model_settings = super().to_dict(**kwargs)
+        # top-level entries are passed back to the constructor when the model is loaded
+        model_settings["with_random_slope_age"] = self.with_random_slope_age
+        return model_settings
 
     def compute_individual_trajectory(
         self,
